@@ -85,7 +85,7 @@ def run(ctx):
         deep = [r for r in mc.records if len(r["steps"]) > (2 if thorough else 1)]
         picked = short + rng.sample(deep, min(len(deep), 12000 if thorough else 3000))
         if thorough:
-            sim = D.run_tlc(ctx, "C18_MC", "C18_sim.cfg", simulate="num=48", depth=6, timeout=900, tag="sim")
+            sim = D.run_tlc(ctx, "C18_MC", "C18_sim.cfg", simulate="num=2", depth=6, workers=8, timeout=900, tag="sim")   # num is per worker: 16 walks
             if sim.violated or sim.error:
                 raise D.Inconclusive("simulation of the model failed: %s" % (sim.violated or sim.error))
             ctx.extra["simulated_behaviours"] = len(sim.records)
